@@ -361,8 +361,11 @@ impl<RW: QueueRW<T>, T> MultiQueue<RW, T> {
     }
 
     pub fn try_recv(&self, reader: &Reader) -> Result<T, (*const AtomicUsize, TryRecvError)> {
-        let mut ctail_attempt = reader.load_attempt(Relaxed);
+        // Decide whether this handle is alone on its stream before the cursor is loaded: only
+        // then does "single" guarantee that nobody moved the cursor after it was read (a sibling
+        // that leaves in between would otherwise make a stale cursor look exclusive)
         let is_single = reader.is_single();
+        let mut ctail_attempt = reader.load_attempt(Relaxed);
         unsafe {
             loop {
                 let (ctail, wrap_valid_tag) = ctail_attempt.get();
